@@ -39,7 +39,7 @@ GL == GLn(1) \cup GLn(2) \cup GLn(3)
 
 \* ---- Hencky ------------------------------------------------------------------------------------------------------------------
 Identity4 == <<1, 0, 0, 0>>
-Exps == {-1, 0, 2}
+Exps == IF Thorough THEN -1..2 ELSE {-1, 0, 2}
 KTriples == {<<a, b, c>> : a \in Exps, b \in Exps, c \in Exps}
 Q3 == IF Thorough THEN {Identity4, <<1, 1, 0, 0>>, <<2, 1, 0, 0>>, <<1, 1, 1, 1>>, <<2, 1, -1, 0>>, <<1, 0, 2, 1>>}
       ELSE {Identity4, <<2, 1, 0, 0>>, <<1, 1, 1, 1>>, <<2, 1, -1, 0>>}
